@@ -158,6 +158,13 @@ fn wrong_passwords(pw: &[u8]) -> Vec<Vec<u8>> {
     if !pw.is_empty() {
         v.push(vec![]);
         v.push(pw[..pw.len() - 1].to_vec());
+        if pw.len() > 1016 {
+            v.push(pw[..1016].to_vec());
+            let mut c = pw.to_vec();
+            let l = c.len() - 1;
+            c[l] = c[l].wrapping_add(1);
+            v.push(c);
+        }
         let mut c = pw.to_vec();
         c[0] ^= 0x20;
         v.push(c);
@@ -333,7 +340,8 @@ pub fn run(ctx: &mut Ctx) {
     let salt8 = [0xA1u8, 2, 3, 4, 5, 6, 7, 0xB8];
     let salt16 = [9u8; 16];
     let mut grid: Vec<Prot> = vec![];
-    let cfb_ciphers: &[u8] = if quick { &[7, 9, 2, 3, 10, 12] } else { &[1, 2, 3, 4, 7, 8, 9, 10, 11, 12, 13] };
+    // every cipher in both tiers (a dispatch-table slip for one rarely used cipher must be seen)
+    let cfb_ciphers: &[u8] = &[1, 2, 3, 4, 7, 8, 9, 10, 11, 12, 13];
     let hashes_strong: &[u8] = if quick { &[8, 10] } else { &[8, 9, 10, 11, 12, 14] };
     for &c in cfb_ciphers {
         for &h in hashes_strong {
@@ -409,7 +417,16 @@ pub fn run(ctx: &mut Ctx) {
             describe_case(&format!("{kname} usage {} cipher {} aead {} s2k {}", p.usage, p.cipher, p.aead, s2k_kind(&p.s2k)));
             let mut rng = ctx.rng("grid", (ki * 10000 + gi) as u64);
             let pws = passwords(&mut rng);
-            let pw = pws[(gi + ki) % pws.len()].clone();
+            let mut pw = pws[(gi + ki) % pws.len()].clone();
+            // iterated S2K with a small count: salt+password longer than the decoded count must be
+            // hashed in full once (RFC 9580 3.7.1.3) - use passwords of 1017..2100 octets there
+            if let RefS2k::Iterated { count, .. } = &p.s2k {
+                if *count <= 0x10 && (gi + ki) % 2 == 0 {
+                    let n = [1017usize, 1100, 2100][(gi / 2 + ki) % 3];
+                    pw = vec![0u8; n];
+                    rng.fill_bytes(&mut pw);
+                }
+            }
             let pwd = Password::from(&pw[..]);
             let Some(rprot) = ref_protection(p, &mut rng) else { continue };
             let replay = json!({"key": kname, "usage": p.usage, "cipher": p.cipher, "aead": p.aead, "s2k": format!("{:?}", p.s2k), "pw": hexs(&pw)});
